@@ -135,27 +135,32 @@ Definition xs_core (s2 : text) : option Z :=
   | _ => None
   end.
 
-(** magnitude computed by the reader after the 'P' *)
-Definition rd_core (s2 : text) : Z :=
+(** magnitude computed by the reader after the 'P', and the text its scanners left over *)
+Definition rd_core (s2 : text) : Z * text :=
   let (y, s3) := scan_unit 89 s2 in
   let (mo, s4) := scan_unit 77 s3 in
   let (d, s5) := scan_unit 68 s4 in
-  let '(h, mi, (sec, fr)) :=
+  let '(h, mi, (sec, fr), rest) :=
     match s5 with
     | 84 :: s6 =>
         let (h, s7) := scan_unit 72 s6 in
         let (mi, s8) := scan_unit 77 s7 in
-        let (sf, _) := scan_seconds s8 in (h, mi, sf)
-    | _ => (0, 0, (0, []))
+        let (sf, s9) := scan_seconds s8 in (h, mi, sf, s9)
+    | _ => (0, 0, (0, []), s5)
     end in
   let days := d + mo * 30 + y * 365 in
-  days * US_DAY + h * 3600000000 + mi * 60000000 + sec * 1000000 + frac6 6 fr.
+  (days * US_DAY + h * 3600000000 + mi * 60000000 + sec * 1000000 + frac6 6 fr, rest).
 
-Definition rd_finish (neg : bool) (n : Z) : out Z :=
-  if td_ok n then
-    let n' := if neg then - n else n in
-    if td_ok n' then Ok n' else VFault
-  else VFault.
+Definition rd_finish (neg : bool) (nr : Z * text) : out Z :=
+  let (n, rest) := nr in
+  match rest with
+  | [] =>
+      if td_ok n then
+        let n' := if neg then - n else n in
+        if td_ok n' then Ok n' else VFault
+      else VFault
+  | _ => VFault
+  end.
 
 Lemma xs_duration_pos s2 : xs_duration (80 :: s2) = xs_core s2.
 Proof.
@@ -184,7 +189,7 @@ Lemma rd_pos s2 : duration_from_unicode (80 :: s2) = rd_finish false (rd_core s2
 Proof.
   unfold duration_from_unicode, rd_core, rd_finish.
   destruct (scan_unit 89 s2) as [y s3], (scan_unit 77 s3) as [mo s4], (scan_unit 68 s4) as [d s5].
-  destruct (match s5 with 84 :: s6 => _ | _ => _ end) as [[h mi] [sec fr]].
+  destruct (match s5 with 84 :: s6 => _ | _ => _ end) as [[[h mi] [sec fr]] rest].
   reflexivity.
 Qed.
 
@@ -192,7 +197,7 @@ Lemma rd_neg s2 : duration_from_unicode (45 :: 80 :: s2) = rd_finish true (rd_co
 Proof.
   unfold duration_from_unicode, rd_core, rd_finish.
   destruct (scan_unit 89 s2) as [y s3], (scan_unit 77 s3) as [mo s4], (scan_unit 68 s4) as [d s5].
-  destruct (match s5 with 84 :: s6 => _ | _ => _ end) as [[h mi] [sec fr]].
+  destruct (match s5 with 84 :: s6 => _ | _ => _ end) as [[[h mi] [sec fr]] rest].
   reflexivity.
 Qed.
 
@@ -242,6 +247,9 @@ Proof.
   destruct ds; [congruence|]. rewrite Z.eqb_refl. reflexivity.
 Qed.
 
+Lemma some_inj {A} (a b : A) : Some a = Some b -> a = b.
+Proof. congruence. Qed.
+
 (** the time part: recogniser and reader run the same three scanners *)
 Lemma core_time d s6 m :
   (let (h, s7) := scan_unit 72 s6 in
@@ -255,21 +263,22 @@ Lemma core_time d s6 m :
        else None
    | _ => None
    end) = Some m ->
-  (let '(h, mi, (sec, fr)) :=
+  (let '(h, mi, (sec, fr), rest) :=
      let (h, s7) := scan_unit 72 s6 in
      let (mi, s8) := scan_unit 77 s7 in
-     let (sf, _) := scan_seconds s8 in (h, mi, sf) in
-   (d + 0 * 30 + 0 * 365) * US_DAY + h * 3600000000 + mi * 60000000 + sec * 1000000 + frac6 6 fr) = m.
+     let (sf, s9) := scan_seconds s8 in (h, mi, sf, s9) in
+   ((d + 0 * 30 + 0 * 365) * US_DAY + h * 3600000000 + mi * 60000000 + sec * 1000000 + frac6 6 fr,
+    rest)) = (m, []).
 Proof.
   destruct (scan_unit 72 s6) as [h s7], (scan_unit 77 s7) as [mi s8],
     (scan_seconds s8) as [[sec fr] s9].
   destruct s9; [|discriminate]. destruct (text_eqb [] s6); [discriminate|].
   destruct (Nat.leb (length fr) 6); [|discriminate].
-  intros H; inversion H. f_equal. f_equal. f_equal. f_equal. lia.
+  intros H; apply some_inj in H. rewrite <- H. f_equal. lia.
 Qed.
 
-(** on the D/H/M/S fragment the reader computes the denoted magnitude *)
-Lemma rd_core_xs s2 m : xs_core s2 = Some m -> rd_core s2 = m.
+(** on the D/H/M/S fragment the reader computes the denoted magnitude and consumes everything *)
+Lemma rd_core_xs s2 m : xs_core s2 = Some m -> rd_core s2 = (m, []).
 Proof.
   unfold xs_core, rd_core. destruct (scan_unit 68 s2) as [d s5] eqn:E68.
   destruct (scan_unit_inv _ _ _ _ E68) as [[-> ->] | (ds & Hne & Hds & -> & ->)].
@@ -283,7 +292,8 @@ Proof.
     rewrite (scan_unit_other 68 77 ds s5 Hne Hds eq_refl ltac:(discriminate)).
     rewrite E68.
     destruct s5 as [|c s6].
-    + destruct (negb _); [|discriminate]. intros H; inversion H. cbn [frac6]. lia.
+    + destruct (negb _); [|discriminate]. intros H; apply some_inj in H. rewrite <- H.
+      cbn [frac6]. f_equal. lia.
     + destruct (Z.eq_dec c 84) as [->|N84]; [apply core_time|].
       intros H. exfalso. destruct c as [|p|p]; try discriminate.
       do 7 (try (destruct p as [p|p|]; try discriminate; try congruence)).
@@ -339,9 +349,6 @@ Proof.
     inversion H'; cbn; lia.
 Qed.
 
-Lemma some_inj {A} (a b : A) : Some a = Some b -> a = b.
-Proof. congruence. Qed.
-
 Lemma xs_core_nonneg s2 m : xs_core s2 = Some m -> 0 <= m.
 Proof.
   unfold xs_core. destruct (scan_unit 68 s2) as [d s5] eqn:E68.
@@ -392,9 +399,10 @@ Lemma duration_in_lex_guarded s n : xs_duration s = Some n -> td_ok n = true ->
 Proof. intros Hx Hn _. apply duration_in_lex; assumption. Qed.
 
 (** D. the reader never raises anything but ValidationError *)
-Lemma rd_finish_total neg n : is_crash (rd_finish neg n) = false.
+Lemma rd_finish_total neg nr : is_crash (rd_finish neg nr) = false.
 Proof.
-  unfold rd_finish. destruct (td_ok n); [|reflexivity].
+  unfold rd_finish. destruct nr as [n rest]. destruct rest; [|reflexivity].
+  destruct (td_ok n); [|reflexivity].
   destruct (td_ok (if neg then - n else n)); reflexivity.
 Qed.
 
@@ -571,4 +579,143 @@ Proof.
   destruct (text_eqb s [102; 97; 108; 115; 101]) eqn:E3; [apply text_eqb_eq in E3; subst; cbn; congruence|].
   destruct (text_eqb s [48]) eqn:E4; [apply text_eqb_eq in E4; subst; cbn; congruence|].
   discriminate.
+Qed.
+
+(** ---- nothing of the input is ignored: an accepted text is, in full, a word
+    of the regular expression, and the value is the one its groups denote ---- *)
+From SpyneV Require Import C08.DurLang.
+
+Lemma scan_unit_piece c s v s' : scan_unit c s = (v, s') ->
+  exists p, s = p ++ s' /\ dur_piece c p v.
+Proof.
+  intros H. destruct (scan_unit_inv _ _ _ _ H) as [[-> ->] | (ds & Hne & Hds & -> & ->)].
+  - exists []. split; [reflexivity|left; auto].
+  - exists (ds ++ [c]). split; [rewrite <- app_assoc; reflexivity|].
+    right. exists ds. repeat split; assumption.
+Qed.
+
+Lemma match46 {A} (c : Z) (x y : A) : c <> 46 -> match c with 46 => x | _ => y end = y.
+Proof.
+  intros H. destruct c as [|p|p]; try reflexivity.
+  do 6 (try (destruct p as [p|p|]; try reflexivity)). congruence.
+Qed.
+Lemma match83 {A} (c : Z) (x y : A) : c <> 83 -> match c with 83 => x | _ => y end = y.
+Proof.
+  intros H. destruct c as [|p|p]; try reflexivity.
+  do 7 (try (destruct p as [p|p|]; try reflexivity)). congruence.
+Qed.
+Lemma match84 {A} (c : Z) (x y : A) : c <> 84 -> match c with 84 => x | _ => y end = y.
+Proof.
+  intros H. destruct c as [|p|p]; try reflexivity.
+  do 7 (try (destruct p as [p|p|]; try reflexivity)). congruence.
+Qed.
+
+Lemma scan_frac_inv r f r2 : scan_frac r = (f, r2) ->
+  (f = None /\ r2 = r) \/ (exists fd, digits fd /\ f = Some fd /\ r = 46 :: fd ++ r2).
+Proof.
+  unfold scan_frac. destruct r as [|x r']; [intros H; inversion H; auto|].
+  destruct (Z.eq_dec x 46) as [->|N46].
+  - destruct (span_digits r') as [fd rest] eqn:E.
+    destruct (span_digits_spec r' fd rest E) as (-> & Hfd & _).
+    destruct fd as [|e fd]; intros H; inversion H; subst; [auto|].
+    right. exists (e :: fd). repeat split; [discriminate|exact Hfd].
+  - rewrite match46 by exact N46. intros H; inversion H; auto.
+Qed.
+
+Lemma scan_seconds_piece s sec fr s9 : scan_seconds s = ((sec, fr), s9) ->
+  exists p, s = p ++ s9 /\ dur_sec_piece p sec fr.
+Proof.
+  unfold scan_seconds. destruct (span_digits s) as [ds r] eqn:E.
+  destruct (span_digits_spec s ds r E) as (-> & Hds & _).
+  assert (Hno : ((0, @nil Z), ds ++ r) = ((sec, fr), s9) ->
+                exists p, ds ++ r = p ++ s9 /\ dur_sec_piece p sec fr).
+  { intros H; inversion H; subst. exists []. split; [reflexivity|left; auto]. }
+  destruct ds as [|d0 ds]; [exact Hno|].
+  destruct (scan_frac r) as [f r2] eqn:Ef.
+  destruct r2 as [|x r3]; [exact Hno|].
+  destruct (Z.eq_dec x 83) as [->|N83]; [|rewrite match83 by exact N83; exact Hno].
+  intros H. apply (f_equal fst) in H as H1. apply (f_equal snd) in H as H2. cbn [fst snd] in H1, H2.
+  subst s9. apply (f_equal fst) in H1 as H3. apply (f_equal snd) in H1 as H4. cbn [fst snd] in H3, H4.
+  assert (Hd : digits (d0 :: ds)) by (split; [discriminate|exact Hds]).
+  destruct (scan_frac_inv r f (83 :: r3) Ef) as [[-> <-] | (fd & Hfd & -> & ->)].
+  - exists ((d0 :: ds) ++ [83]). split; [rewrite <- app_assoc; reflexivity|].
+    right. exists (d0 :: ds). split; [exact Hd|]. split; [symmetry; exact H3|]. left. auto.
+  - exists ((d0 :: ds) ++ 46 :: fd ++ [83]). split.
+    { rewrite <- app_assoc. cbn [app]. rewrite <- app_assoc. reflexivity. }
+    right. exists (d0 :: ds). split; [exact Hd|]. split; [symmetry; exact H3|]. right.
+    subst fr. split; [exact Hfd|reflexivity].
+Qed.
+
+Lemma rd_core_lang s2 m rest : rd_core s2 = (m, rest) ->
+  exists py pmo pd pt y mo d h mi sec fr,
+    s2 = py ++ pmo ++ pd ++ pt ++ rest
+    /\ dur_piece 89 py y /\ dur_piece 77 pmo mo /\ dur_piece 68 pd d
+    /\ dur_time_part pt h mi sec fr
+    /\ m = (d + mo * 30 + y * 365) * US_DAY + h * 3600000000 + mi * 60000000
+           + sec * 1000000 + frac6 6 fr.
+Proof.
+  unfold rd_core.
+  destruct (scan_unit 89 s2) as [y s3] eqn:Ey. destruct (scan_unit 77 s3) as [mo s4] eqn:Emo.
+  destruct (scan_unit 68 s4) as [d s5] eqn:Ed.
+  destruct (scan_unit_piece _ _ _ _ Ey) as (py & -> & Hy).
+  destruct (scan_unit_piece _ _ _ _ Emo) as (pmo & -> & Hmo).
+  destruct (scan_unit_piece _ _ _ _ Ed) as (pd & -> & Hd).
+  assert (Hnot : (let '(h, mi, (sec, fr), rest) := (0, 0, (0, @nil Z), s5) in
+                  ((d + mo * 30 + y * 365) * US_DAY + h * 3600000000 + mi * 60000000
+                   + sec * 1000000 + frac6 6 fr, rest)) = (m, rest) ->
+          exists py0 pmo0 pd0 pt y0 mo0 d0 h mi sec fr,
+            py ++ pmo ++ pd ++ s5 = py0 ++ pmo0 ++ pd0 ++ pt ++ rest
+            /\ dur_piece 89 py0 y0 /\ dur_piece 77 pmo0 mo0 /\ dur_piece 68 pd0 d0
+            /\ dur_time_part pt h mi sec fr
+            /\ m = (d0 + mo0 * 30 + y0 * 365) * US_DAY + h * 3600000000 + mi * 60000000
+                   + sec * 1000000 + frac6 6 fr).
+  { intros H. apply (f_equal fst) in H as H1. apply (f_equal snd) in H as H2. cbn [fst snd] in H1, H2.
+    subst rest. exists py, pmo, pd, [], y, mo, d, 0, 0, 0, [].
+    repeat split; try assumption; [left; auto 6|symmetry; exact H1]. }
+  destruct s5 as [|c s6]; [exact Hnot|].
+  destruct (Z.eq_dec c 84) as [->|N84]; [|rewrite match84 by exact N84; exact Hnot].
+  clear Hnot.
+  destruct (scan_unit 72 s6) as [h s7] eqn:Eh. destruct (scan_unit 77 s7) as [mi s8] eqn:Emi.
+  destruct (scan_seconds s8) as [[sec fr] s9] eqn:Es.
+  destruct (scan_unit_piece _ _ _ _ Eh) as (ph & -> & Hh).
+  destruct (scan_unit_piece _ _ _ _ Emi) as (pm & -> & Hmi).
+  destruct (scan_seconds_piece _ _ _ _ Es) as (ps & -> & Hs).
+  intros H. apply (f_equal fst) in H as H1. apply (f_equal snd) in H as H2. cbn [fst snd] in H1, H2.
+  subst s9. exists py, pmo, pd, (84 :: ph ++ pm ++ ps), y, mo, d, h, mi, sec, fr.
+  split; [cbn [app]; rewrite <- !app_assoc; reflexivity|].
+  repeat split; try assumption; [|symmetry; exact H1].
+  right. exists ph, pm, ps. auto.
+Qed.
+
+(** the reader accepts only complete words of the regular expression, with the
+    value its groups denote: no trailing (or any other) text is ignored *)
+Lemma duration_no_trailing_junk s n : duration_from_unicode s = Ok n -> dur_lang s n.
+Proof.
+  intros H.
+  assert (Hfin : forall neg s2, rd_finish neg (rd_core s2) = Ok n ->
+            dur_lang ((if neg then [45] else []) ++ 80 :: s2) n).
+  { intros neg s2. destruct (rd_core s2) as [m rest] eqn:E. unfold rd_finish.
+    destruct rest; [|discriminate].
+    destruct (td_ok m) eqn:T1; [|discriminate].
+    destruct (td_ok (if neg then - m else m)) eqn:T2; [|discriminate].
+    intros Hn; inversion Hn; subst n.
+    destruct (rd_core_lang s2 m [] E)
+      as (py & pmo & pd & pt & y & mo & d & h & mi & sec & fr & -> & Hy & Hmo & Hd & Ht & ->).
+    exists neg, py, pmo, pd, pt, y, mo, d, h, mi, sec, fr.
+    rewrite app_nil_r. repeat split; assumption. }
+  destruct (dur_shape s) as [[s2 ->] | [[s2 ->] | [_ Hv]]]; [| |congruence].
+  - rewrite rd_neg in H. apply (Hfin true s2 H).
+  - rewrite rd_pos in H. apply (Hfin false s2 H).
+Qed.
+
+(** corollary in the plainest form: appending anything after the seconds
+    designator of an accepted text makes it unacceptable *)
+Lemma duration_rejects_suffix_after_S k x junk :
+  0 <= k -> duration_from_unicode (80 :: 84 :: str_nat k ++ 83 :: x :: junk) = VFault.
+Proof.
+  intros Hk. rewrite rd_pos. unfold rd_core.
+  rewrite !(scan_unit_nd _ 84 _ eq_refl).
+  rewrite (scan_unit_miss 72 k 83 _ Hk eq_refl ltac:(discriminate)).
+  rewrite (scan_unit_miss 77 k 83 _ Hk eq_refl ltac:(discriminate)).
+  rewrite scan_seconds_int by exact Hk. reflexivity.
 Qed.
